@@ -69,6 +69,7 @@ type Contract struct {
 	Func                            string // RelString form, or "iface T.M"
 	IsIface                         bool
 	Requires, Ensures, EnsuresPanic []*Clause
+	EnsuresAbrupt                  []*Clause // hold whenever the function is left by a panic (own or propagated), after its deferred calls
 	Assigns                         []*Clause
 	Loops                           map[int]*LoopSpec
 	Flags                           map[string]bool
@@ -89,6 +90,8 @@ type ContractSet struct {
 	AtomicOnly   []string    // pkgDir|T.f : only sync/atomic may touch the field
 	Guarded      [][3]string // pkgDir, T.f, T.lock : every access needs the lock held
 	TypeInvQ     []*Clause
+	AbruptRely   []*Clause // what unknown code leaves behind when it panics (two-state, over a held value)
+	AbruptHavoc  []string  // "T.f": jspreserved only on normal completion
 	Macros       map[string]string
 	Constructors [][2]string          // type name, function (RelString) allowed to store to its stable fields
 	TypeInv      [][3]string          // pkgDir, type ("*T" or "T"), spec function
@@ -104,7 +107,9 @@ type ContractSet struct {
 	Scan         []string // occurrences of assume/trusted/axiom for the evidence
 }
 
-var clauseRe = regexp.MustCompile(`^(requires|ensures_panic|ensures|assigns|safe|pure|trusted|inline|uninterpreted|overflow-checked|wrap64|nopanic|sweep-callers|ghost|capture|exitvars|timeout|props|replay_assume|replay|observe)\b\s*(.*)$`)
+var recoveredRe = regexp.MustCompile(`\brecovered\b`)
+
+var clauseRe = regexp.MustCompile(`^(requires|ensures_panic|ensures_abrupt|ensures|assigns|safe|pure|trusted|inline|uninterpreted|overflow-checked|wrap64|nopanic|maypanic|sweep-callers|ghost|capture|exitvars|timeout|props|replay_assume|replay|observe)\b\s*(.*)$`)
 var labelRe = regexp.MustCompile(`\s+\[([A-Za-z0-9_:.#+\-]+)\]\s*$`)
 
 // parseContractFile reads one contract file.
@@ -201,6 +206,21 @@ func parseContractFile(cs *ContractSet, path, pkgDir string) {
 				for _, fn := range f[1:] {
 					cs.Constructors = append(cs.Constructors, [2]string{f[0], fn})
 				}
+			}
+		case strings.HasPrefix(l, "abrupthavoc "):
+			for _, f := range strings.Fields(strings.TrimPrefix(l, "abrupthavoc ")) {
+				cs.AbruptHavoc = append(cs.AbruptHavoc, pkgDir+"|"+f)
+			}
+			cs.Scan = append(cs.Scan, fmt.Sprintf("assumed: script execution that ends in a panic may change %s only as the abruptrely clauses say (%s:%d)", strings.TrimPrefix(l, "abrupthavoc "), filepath.Base(path), ln+1))
+		case strings.HasPrefix(l, "abruptrely "):
+			// abruptrely <type> <var> <two-state clause>
+			f := strings.Fields(strings.TrimPrefix(l, "abruptrely "))
+			if len(f) >= 3 {
+				c := mk("abruptrely", strings.Join(f[2:], " "))
+				c.Owner = &Contract{PkgDir: pkgDir, PkgName: pkgName, Func: "abruptrely", File: path}
+				c.ObsName, c.ObsType = f[1], f[0]
+				cs.AbruptRely = append(cs.AbruptRely, c)
+				cs.Scan = append(cs.Scan, fmt.Sprintf("assumed: when unknown code panics, every existing %s satisfies %s (%s:%d)", f[0], strings.Join(f[2:], " "), filepath.Base(path), ln+1))
 			}
 		case strings.HasPrefix(l, "typeinvq "):
 			// typeinvq <type> <var> <clause> : quantified type invariant (rely), clause over <var>
@@ -319,6 +339,8 @@ func parseContractFile(cs *ContractSet, path, pkgDir string) {
 				cur.Ensures = append(cur.Ensures, mk("ensures", m[2]))
 			case "ensures_panic":
 				cur.EnsuresPanic = append(cur.EnsuresPanic, mk("ensures_panic", m[2]))
+			case "ensures_abrupt":
+				cur.EnsuresAbrupt = append(cur.EnsuresAbrupt, mk("ensures_abrupt", m[2]))
 			case "assigns":
 				for _, d := range splitTop(m[2], ',') {
 					cur.Assigns = append(cur.Assigns, mk("assigns", strings.TrimSpace(d)))
@@ -730,9 +752,13 @@ func (cs *ContractSet) genOverlay(sp *srcPkg, contracts []*Contract, axioms []*C
 	used := map[string]bool{}
 	n := 0
 	noteImports := func(text string) {
-		for _, m := range identRe.FindAllStringSubmatch(text, -1) {
-			if _, ok := sp.imports[m[1]]; ok {
-				used[m[1]] = true
+		for _, m := range identRe.FindAllStringSubmatchIndex(text, -1) {
+			name := text[m[2]:m[3]]
+			if m[2] > 0 && text[m[2]-1] == '.' {
+				continue // a field selector that happens to be spelled like a package
+			}
+			if _, ok := sp.imports[name]; ok {
+				used[name] = true
 			}
 		}
 	}
@@ -772,6 +798,10 @@ func (cs *ContractSet) genOverlay(sp *srcPkg, contracts []*Contract, axioms []*C
 				ret = "int"
 				cl.Expr = "int(" + cl.Expr + ")"
 			}
+			if recoveredRe.MatchString(cl.Text) {
+				// the value recover() returns in a function written to be deferred (nil: not panicking)
+				params = append(append([]Param{}, params...), Param{"recovered", "interface{}"})
+			}
 			emit(cl, append(append([]Param{}, params...), cl.Bound...), ret, cl.Expr)
 		}
 		for _, cl := range c.Requires {
@@ -782,6 +812,9 @@ func (cs *ContractSet) genOverlay(sp *srcPkg, contracts []*Contract, axioms []*C
 		}
 		for _, cl := range c.EnsuresPanic {
 			do(cl, append(append([]Param{}, withGhost...), Param{"panicValue", "interface{}"}))
+		}
+		for _, cl := range c.EnsuresAbrupt {
+			do(cl, append(append(append([]Param{}, withGhost...), c.ExitVars...), Param{"panicValue", "interface{}"}))
 		}
 		var loopNs []int
 		for k := range c.Loops {
@@ -837,7 +870,7 @@ func (cs *ContractSet) genOverlay(sp *srcPkg, contracts []*Contract, axioms []*C
 			}
 		}
 	}
-	for _, cl := range cs.TypeInvQ {
+	for _, cl := range append(append([]*Clause{}, cs.TypeInvQ...), cs.AbruptRely...) {
 		if cl.Owner.PkgDir != sp.dir || cl.FnName != "" {
 			continue
 		}
